@@ -408,7 +408,7 @@ pub fn pyverify(prop: &str, scen_path: &str, res_path: &str, tier: Tier, seed: u
             continue;
         }
         let sc = Scenario {
-            problem: crate::world::Problem { spec: Spec::from_json(&s["spec"]), world: crate::world::World::from_json(&s["world"]), start: crate::util::parse_fs(&s["start"]), goal: crate::world::GoalSpec::from_json(&s["goal"]), infeasible: None, tags: vec![] },
+            problem: crate::world::Problem { spec: Spec::from_json(&s["spec"]), world: crate::world::World::from_json(&s["world"]), start: crate::util::parse_fs(&s["start"]), goal: crate::world::GoalSpec::from_json(&s["goal"]), infeasible: None, tags: vec![], extra_starts: vec![] },
             params: crate::world::PParams::from_json(&s["planner"]),
             iters: 3000,
             prm_samples: 60,
